@@ -1173,3 +1173,14 @@ M("C07-benign-left-shift-in-unsigned-domain", "C07", "src/cppparser/cppExpressio
 M("C06-base-scope-lookup-recurses", "C06", "src/cppparser/cppScope.cxx",
   "        CPPType *type = st->_scope->find_type(name, false);", "        CPPType *type = st->_scope->find_type(name, recurse);",
   expect="R06.8|CPPScope::find_type")
+
+M("C13-global-tie-break-dropped", "C13", "src/interrogatedb/interrogateType.cxx",
+  "  if (is_fully_defined() &&\n      (!other.is_fully_defined() || (other._flags & F_global) == 0)) {", "  if (is_fully_defined() && !other.is_fully_defined()) {",
+  expect="R13.5|merge_with|fully-defined-then-global-wins")
+M("C13-benign-merge-with-is-global", "C13", "src/interrogatedb/interrogateType.cxx",
+  "  if (is_fully_defined() &&\n      (!other.is_fully_defined() || (other._flags & F_global) == 0)) {", "  if (is_fully_defined() &&\n      (!other.is_fully_defined() || !other.is_global())) {",
+  benign=True)
+MUTANTS.append({"id": "C13-mapping-built-while-translating", "prop": "C13", "benign": False,
+  "expect": "R13.5|merge_from|mapping-complete-before-first-translation",
+  "edits": [("src/interrogatedb/interrogateDatabase.cxx", "        remap.add_mapping(other_type_index, this_type_index);\n      }\n    }\n  }\n\n  // Now that we know the full type-to-type mapping, we can copy the new\n  // types, one at a time.\n  for (ti = other._type_map.begin(); ti != other._type_map.end(); ++ti) {\n    TypeIndex other_type_index = (*ti).first;\n    const InterrogateType &other_type = (*ti).second;\n",
+             "        remap.add_mapping(other_type_index, this_type_index);\n      }\n    }\n")]})
